@@ -2,7 +2,7 @@
    harness observes of the Go run. *)
 From Coq Require Import List ZArith Bool.
 From Verif Require Spec.Visited Spec.Rules Spec.Walk.
-From Verif Require Import Base.Sx Base.GoVal Base.F64 Schema.Ast Schema.Pipeline Schema.Simple Schema.Draft4 Schema.Classes Schema.Helpers Schema.Post Schema.AgreementDec Schema.AgreementRec Schema.PipelineLocateDec Schema.PipelineTermDec Schema.SimpleAgree Schema.SimpleAgreeDec.
+From Verif Require Import Base.Sx Base.GoVal Base.F64 Schema.Ast Schema.Pipeline Schema.Simple Schema.Draft4 Schema.Classes Schema.Helpers Schema.Post Schema.AgreementDec Schema.AgreementRec Schema.PipelineLocateDec Schema.PipelineTermDec Schema.SimpleAgree Schema.SimpleAgreeDec Schema.SimpleCarrier Schema.SimpleCarrierDec.
 Import ListNotations.
 Open Scope Z_scope.
 
@@ -132,16 +132,21 @@ Definition run_simple (s : sx) : sx :=
   | _ => sx_err
   end.
 
-(* the same case against the declarative reading (Schema/SimpleAgree.v): (inside the proved class?, verdict of the reading) *)
+(* the same case against the declarative reading (Schema/SimpleAgree.v, SimpleCarrier.v): (inside the proved class?, verdict of the
+   reading of the value carried, inside through the typed-value theorem only?) *)
 Definition run_simple_frag (s : sx) : sx :=
   match s with
   | L [orc; root; data] =>
       match get_oracles orc, get_sroot root, get_goval data with
       | Some orc, Some root, Some data =>
           let q := sr_simple root in
-          L [ ofBool (qclean_b orc flocq_ops f_finite (q_format q) q && jd_b f_finite false true (S (goval_depth data)) data &&
-                      qfits_b flocq_ops q data);
-              ofBool (root_spec orc flocq_ops root data) ]
+          let clean := qclean_b orc flocq_ops f_finite (q_format q) q in
+          let json := clean && jd_b f_finite false true (S (goval_depth data)) data && qfits_b flocq_ops q data in
+          (* typed values (Schema/SimpleCarrier.v): the theorem is conditional on the exactness of the numeric implementation *)
+          let typed := clean && tj_b f_finite (S (goval_depth data)) data && tfits_b flocq_ops f_finite q data in
+          L [ ofBool (json || typed);
+              ofBool (root_spec orc flocq_ops root (as_json flocq_ops data));
+              ofBool (typed && negb json) ]
       | _, _, _ => sx_err
       end
   | _ => sx_err
